@@ -2,7 +2,8 @@
 (* Every history (with crashes, so that two un-checkpointed segments occur), then the store is     *)
 (* closed, ONE damage is applied to an un-checkpointed item, and the store is opened again.          *)
 EXTENDS CasDamage
-CONSTANTS MaxOps, MaxCrashes, WalN, PutContents, ExcuseF7
+CONSTANTS MaxOps, MaxCrashes, WalN, PutContents, ExcuseF7,
+          ContinueAfterDamage   \* TRUE: the store is used after the damaged directory was accepted (observation F8, beyond C10)
 VARIABLES s, dm      \* dm: [on, base (disk before the damage), f7]
 
 Menu == {[op |-> "put", k |-> k, c |-> c] : k \in Keys, c \in PutContents}
@@ -10,7 +11,7 @@ Menu == {[op |-> "put", k |-> k, c |-> c] : k \in Keys, c \in PutContents}
    \cup {[op |-> "delr", lo |-> <<"U", 0>>, hi |-> <<"U", 0>>], [op |-> "ckpt"], [op |-> "close"]}
 
 Init == s = InitState(WalN, {}) /\ dm = [on |-> FALSE, base |-> DiskOf(InitState(WalN, {})), f7 |-> FALSE]
-StartOp   == s.pc = "idle" /\ s.open /\ ~dm.on /\ s.nops < MaxOps /\ \E u \in Menu : s' = Begin(s, u) /\ dm' = dm
+StartOp   == s.pc = "idle" /\ s.open /\ (~dm.on \/ ContinueAfterDamage) /\ s.nops < MaxOps /\ \E u \in Menu : s' = Begin(s, u) /\ dm' = dm
 StartOpen == s.pc = "idle" /\ ~s.open /\ s' = [Begin(s, [op |-> "open"]) EXCEPT !.nops = s.nops] /\ dm' = dm
 DoStep    == s.pc # "idle" /\ s' = Step(s) /\ dm' = dm
 Crash     == ~dm.on /\ s.crashes < MaxCrashes /\ s.pc # "idle" /\ s' = CrashOf(s) /\ dm' = dm
@@ -26,4 +27,10 @@ Spec == Init /\ [][Next]_<<s, dm>>
 \* after the damage, the first completed open: an error, or exactly the prefix state
 \* (pc = "op_ensure": Index::load has just succeeded on the damaged directory, nothing was written yet)
 Inv_C10 == (dm.on /\ s.pc = "op_ensure" /\ ~(ExcuseF7 /\ dm.f7)) => s.ix.idx = PrefixState(dm.base, DiskOf(s))
+\* BEYOND C10 (observation F8): after a damaged directory was ACCEPTED, what the store acknowledges must survive a kill
+\* or restart like anything else.  It does not: a cut inside a record header is a clean end for the reader, the next record
+\* is appended BEHIND the torn bytes, and the reader of the next session stops in front of it (the model's ReadSeg; the
+\* real reader, fed the torn bytes glued to the new header, fails or silently ends).  Checked with ContinueAfterDamage =
+\* TRUE; TLC's counterexample is the model-level form of the recorded cases that `check C10` prints as a NOTE.
+Inv_Beyond_UsableAfterAcceptedDamage == (dm.on /\ s.pc = "idle" /\ s.open) => C03_CrashAtomic(s)
 =============================================================================
